@@ -45,7 +45,9 @@ class Archive:
         self.calls = []
 
     def savez(self, filename, **data):
-        self.calls.append(("savez", filename, sorted(data)))
+        self.calls.append(("savez", filename, sorted(data)))  # numpy opens (truncates) the file before it converts the values
+        for v in data.values():
+            _ragged(v)
         store = self.files.setdefault(filename, {})
         store.clear()  # np.savez rewrites the file
         store.update(data)
@@ -87,6 +89,12 @@ class Archive:
         return ZF
 
 
+def _ragged(v):
+    """numpy's conversion of a list of arrays of unequal shapes (np.save / np.savez -> np.asanyarray) raises ValueError."""
+    if isinstance(v, (list, tuple)) and len({np.shape(x) for x in v}) > 1:
+        raise ValueError("setting an array element with a sequence. The requested array has an inhomogeneous shape")
+
+
 class Payload:
     def __init__(self, payload):
         self.payload = payload
@@ -111,6 +119,7 @@ def _np_proxy(arch):
     proxy = NpProxy()
 
     def save(buffer, arr):
+        _ragged(arr)
         buffer.obj = arr
 
     def array(obj, dtype=None, **kw):
@@ -268,6 +277,10 @@ def t_corrupt(sess):
         "fractions size != n_grains": lambda m: m.fractions.__setitem__(0, sarr(np.zeros(3))),
         "orientations size != n_grains": lambda m: m.orientations.__setitem__(0, sarr(np.zeros((3, 3, 3)))),
         "n_grains attribute stale": lambda m: setattr(m, "n_grains", 4),
+        # a LATER snapshot of the wrong size (the first one is consistent)
+        "fractions[1] size != n_grains": lambda m: m.fractions.__setitem__(1, sarr(np.zeros(3))),
+        "orientations[1] size != n_grains": lambda m: m.orientations.__setitem__(1, sarr(np.zeros((3, 3, 3)))),
+        "fractions[-1] one grain short": lambda m: m.fractions.__setitem__(len(m.fractions) - 1, sarr(np.zeros(1))),
     }
     for label, corrupt in cases.items():
         for pf in (None, "p"):
@@ -335,7 +348,54 @@ def t_filenames(sess):
     sess.satisfiable("filenames: reach", [good])
 
 
+def replay_corrupt(case):
+    """Real files: a mineral whose stored state is corrupt (unequal snapshot counts, a first or a LATER snapshot of the
+    wrong size, stale grain count) must be refused with ValueError and the file system must look exactly as before:
+    no new file, an existing archive byte for byte unchanged -- for whole-file and postfix saves."""
+    import hashlib
+    import os
+    import tempfile
+
+    import numpy as np
+    import pydrex
+
+    problems = []
+    corruptions = {
+        "unequal snapshot counts": lambda m: m.fractions.append(m.fractions[0]),
+        "fractions[0] wrong size": lambda m: m.fractions.__setitem__(0, np.zeros(3)),
+        "orientations[0] wrong size": lambda m: m.orientations.__setitem__(0, np.zeros((3, 3, 3))),
+        "stale n_grains": lambda m: setattr(m, "n_grains", 4),
+        "fractions[1] wrong size": lambda m: m.fractions.__setitem__(1, np.zeros(3)),
+        "orientations[2] wrong size": lambda m: m.orientations.__setitem__(2, np.zeros((7, 3, 3))),
+        "last fractions one short": lambda m: m.fractions.__setitem__(2, np.full(4, 0.25)),
+    }
+    for (label, corrupt), pf, existing in it.product(corruptions.items(), (None, "p", 0), (False, True)):
+        d = tempfile.mkdtemp(prefix="c17c_")
+        f = os.path.join(d, "m.npz")
+        if existing:
+            pydrex.Mineral(n_grains=5, seed=4).save(f, postfix=None if pf is None else "other")
+        before = hashlib.sha256(open(f, "rb").read()).hexdigest() if existing else None
+        m = pydrex.Mineral(n_grains=5, seed=1)
+        for k in range(2):
+            m.fractions.append(np.full(5, 0.2))
+            m.orientations.append(m.orientations[0].copy())
+        corrupt(m)
+        try:
+            m.save(f, postfix=pf)
+            problems.append(f"{label}, postfix {pf!r}: corrupt mineral saved without error")
+        except ValueError:
+            pass
+        except Exception as e:  # noqa: BLE001
+            problems.append(f"{label}, postfix {pf!r}: {type(e).__name__} instead of ValueError")
+        after = hashlib.sha256(open(f, "rb").read()).hexdigest() if os.path.exists(f) else None
+        if after != before or sorted(os.listdir(d)) != (["m.npz"] if existing else []):
+            problems.append(f"{label}, postfix {pf!r}, {'existing archive' if existing else 'no file yet'}: the refused save wrote to the file system")
+    return {"reproduced": bool(problems), "detail": sorted(set(problems))[:8] or "corrupt minerals refused without writing"}
+
+
 def default_cex(name):
+    if name.startswith("corrupt"):
+        return {"replay": "vf.props.C17:replay_corrupt", "case": {}, "cls": {"kind": "corrupt mineral not refused before writing"}}
     return {"replay": "vf.props.C17:replay_postfixes", "case": {}, "cls": {"kind": "save/load round trip fails"}}
 
 
